@@ -208,7 +208,7 @@ func c08Body(r *Run) {
 				// every output says which handler returned it (also the passed-on and the borrowed objects): an equal copy
 				// can then be told apart from another handler's output with the same UUID
 				o.Metadata.Set("from", h.name)
-				sn = append(sn, o.Copy())
+				sn = append(sn, SnapMsg(o))
 				owner[o.UUID+"|"+h.name] = h
 				ownerPtr[o] = h
 			}
@@ -254,7 +254,7 @@ func c08Body(r *Run) {
 							owner[x.UUID+"|"+h.name] = h
 							ownerPtr[x] = h
 							h.returned[d] = append(append([]*message.Message(nil), h.returned[d]...), x)
-							h.snaps[d] = append(append([]*message.Message(nil), h.snaps[d]...), x.Copy())
+							h.snaps[d] = append(append([]*message.Message(nil), h.snaps[d]...), SnapMsg(x))
 							o = append(append([]*message.Message(nil), o...), x)
 						}
 						return o, err
